@@ -10,6 +10,7 @@ import HtaVerif.Spec.C02
 import HtaVerif.Model.C01
 import HtaVerif.Model.C12
 import HtaVerif.Model.C17
+import HtaVerif.Model.C18
 /-!
 `htadrv` — line protocol driver. One JSON request per input line, one JSON answer per
 output line. Imports only `Model/*` and `Spec/*` (core Lean), never a proof file.
@@ -95,6 +96,27 @@ def rawEntry (j : Json) : Except String C01.RawEntry := do
 def prow (r : C01.PRow) : Json :=
   Json.arr #[jInt r.idx, jInt r.ts, jInt r.dur, jInt r.fin, jInt r.pid, jInt r.tid, jInt r.stream, jInt r.corr,
     Json.str r.name, Json.str r.cat]
+
+def frow (j : Json) : Except String C18.FRow := do
+  let a ← getArr j
+  if a.size != 10 then throw "frow: expected 10 fields"
+  return { idx := ← getInt a[0]!, ts := ← getInt a[1]!, dur := ← getInt a[2]!, stream := ← getInt a[3]!,
+           corr := ← getInt a[4]!, iter := ← getInt a[5]!, rank := ← getInt a[6]!, name := ← getStr a[7]!,
+           cat := ← getStr a[8]!, sname := ← getStr a[9]! }
+
+def flt (j : Json) : Except String C18.Flt := do
+  let a ← getArr j
+  let k ← getStr a[0]!
+  match k with
+  | "iteration" => return .iteration (← intList a[1]!)
+  | "iterIndex" => return .iterIndex ((← intList a[1]!).map Int.toNat)
+  | "rank" => return .rank (← intList a[1]!)
+  | "timeRange" => return .timeRange (← getInt a[1]!) (← getInt a[2]!)
+  | "name" => return .name (← getBool a[1]!) (← (← getArr a[2]!).toList.mapM getStr)
+  | "gpu" => return .gpu (← getBool a[1]!)
+  | "cpu" => return .cpu (← getBool a[1]!)
+  | "memcopy" => return .memcopy (← getStr a[1]!) (← getBool a[2]!)
+  | _ => throw s!"unknown filter {k}"
 
 def handle (j : Json) : Except String Json := do
   let op ← getStr (← field j "op")
@@ -231,6 +253,12 @@ def handle (j : Json) : Except String Json := do
           else if C17.isIncreased r then "increased" else if C17.isDecreased r then "decreased"
           else if C17.isUnchanged r then "unchanged" else "none")]
     return Json.mkObj [("rows", Json.arr out.toArray)]
+  | "c18" =>
+    let rs ← (← getArr (← field j "rows")).toList.mapM frow
+    let fs ← (← getArr (← field j "filters")).toList.mapM flt
+    let fr : C18.Frame := { rows := rs, hasRank := ← getBool (← field j "has_rank"), decoded := ← getBool (← field j "decoded") }
+    let out := C18.applyAll fs fr
+    return Json.mkObj [("ids", Json.arr (out.rows.map fun r => Json.arr #[jInt r.rank, jInt r.idx]).toArray)]
   | _ => throw s!"unknown op {op}"
 
 partial def loop (hin hout : IO.FS.Stream) : IO Unit := do
